@@ -155,7 +155,7 @@ func doCheck(prop, tier, repo, verif, only string, dump bool, timeoutS, seed int
 		}
 	}
 	if timeoutS == 0 {
-		timeoutS = 10
+		timeoutS = 20
 		if tier == "thorough" {
 			timeoutS = 60
 		}
@@ -169,6 +169,10 @@ func doCheck(prop, tier, repo, verif, only string, dump bool, timeoutS, seed int
 				continue
 			}
 			if only != "" && !strings.Contains(o.Name, only) {
+				continue
+			}
+			// clauses tagged "unclaimed" are true-but-slow: attempted in the thorough tier only, never counted
+			if hasProp(o.Props, "unclaimed") && tier != "thorough" && only == "" {
 				continue
 			}
 			jobs = append(jobs, &oblResult{O: o, Fn: fr})
@@ -266,6 +270,12 @@ func writeClaims(verif, prop string, out *checkOutcome) int {
 	for _, r := range out.results {
 		switch r.Cls {
 		case "discharged", "cover-ok", "canary-live":
+			// only obligations that discharge comfortably inside the quick budget are claimed (DESIGN §4.3)
+			if r.R.Time > 5.0 {
+				fmt.Printf("NOT-CLAIMED %s: discharged but slow (%.1fs by %s)\n", r.O.Name, r.R.Time, r.R.Solver)
+				bad++
+				continue
+			}
 			names = append(names, r.O.Name)
 		default:
 			fmt.Printf("NOT-CLAIMED %s: %s (%s %s)\n", r.O.Name, r.Cls, r.R.Status, r.R.Solver)
